@@ -69,3 +69,33 @@ Proof.
   cbv zeta. split; [|vm_compute; repeat split; reflexivity].
   repeat (apply ssorted_cons; [|cbn [In]; intros y Hy; lia]). apply ssorted_nil.
 Qed.
+
+(* ---- user-level clause on the concrete model: what [contains] answers after an insert ---- *)
+Lemma zs_mem_insert_same m v : zs_mem (zs_insert m v) v = true.
+Proof. apply zs_mem_In. apply zs_insert_In. left; reflexivity. Qed.
+
+Lemma zs_mem_insert_other m v w : w <> v -> zs_mem (zs_insert m v) w = zs_mem m w.
+Proof.
+  intros Hw. destruct (zs_mem m w) eqn:E.
+  - apply zs_mem_In. apply zs_insert_In. right. apply zs_mem_In. exact E.
+  - apply zs_mem_false. intros Hin. apply zs_insert_In in Hin. destruct Hin as [H|H]; [contradiction|].
+    apply zs_mem_false in E. contradiction.
+Qed.
+
+(* an accepted insert makes exactly that value a member; a refused one (member already, or full) changes nothing;
+   for an arbitrary hash function *)
+Theorem hinsert_then_contains (hash64 : Z -> N) s v : hinv hash64 s ->
+  exists s' b, hinsert hash64 s v = Ok (s', b) /\ hinv hash64 s' /\
+    b = negb (zs_mem (habs s) v || (hcap s <=? hsize s)%N) /\
+    (b = true -> hcontains hash64 s' v = Ok true /\
+                 (forall w, w <> v -> hcontains hash64 s' w = hcontains hash64 s w) /\
+                 hsize s' = (hsize s + 1)%N) /\
+    (b = false -> s' = s).
+Proof.
+  intros Hi. destruct (hinsert_spec hash64 s v Hi) as [s' [b [H [Hi' [Hcap [Hb [Hf Ht]]]]]]].
+  exists s', b. split; [exact H|]. split; [exact Hi'|]. split; [exact Hb|]. split; [|exact Hf].
+  intros Hbt. destruct (Ht Hbt) as [Habs Hsz]. split; [|split; [|exact Hsz]].
+  - rewrite (hcontains_spec hash64 s' v Hi'), Habs, zs_mem_insert_same. reflexivity.
+  - intros w Hw. rewrite (hcontains_spec hash64 s' w Hi'), (hcontains_spec hash64 s w Hi), Habs.
+    rewrite zs_mem_insert_other by exact Hw. reflexivity.
+Qed.
